@@ -76,7 +76,7 @@ Definition add_inv (l : list positive) (s : st) : st := {| inv := l ++ s.(inv); 
 Definition sub_inv (l : list positive) (s : st) : st := {| inv := pdiff s.(inv) l; wr := s.(wr) |}.
 
 Section Search.
-  Variable fx : bool.            (* false: the CaseWhen arm as coded; true: the corrected arm *)
+  Variable fx : bool.            (* false: the CaseWhen arm as originally coded; true: the corrected arm (current tree) *)
   Variable MU : list positive.
 
   (** state of the CaseWhen loop: [always_defined] and the variable [branch_temporaries]
@@ -154,8 +154,10 @@ Section Search.
     end.
 End Search.
 
-Definition search_invalid := search_invalid_gen false.
-Definition search_invalid_fixed := search_invalid_gen true.
+(** the tree under test carries the corrected CaseWhen arm (commit a252909); the arm as originally coded is
+    kept as [search_invalid_coded] for the regression witness *)
+Definition search_invalid := search_invalid_gen true.
+Definition search_invalid_coded := search_invalid_gen false.
 
 (** ** [visit_objects] order (linearisation) and [_check_temporaries] *)
 
@@ -220,7 +222,7 @@ Fixpoint rfind (m : rmap) (x : positive) : option positive :=
   match m with [] => None | (k, v) :: r => if Pos.eqb k x then Some v else rfind r x end.
 
 (** pass 1, statement visiting order of [ctx.visit]: children first.
-    [tr = false]: as coded, [map[target] = source]; [tr = true]: proposed fix, the source is first
+    [tr = false]: as originally coded, [map[target] = source]; [tr = true]: current tree, the source is first
     looked up in the map built so far (it may itself be the result of a removed cast) *)
 Fixpoint bc_collect_stmt (tr : bool) (s : stmt) (m : rmap) : rmap :=
   match s with
@@ -264,12 +266,13 @@ with bc_brs (m : rmap) (brs : branches) : branches :=
   end.
 
 Definition cleanup_bool_cast_gen (tr : bool) (t : block) : block := bc_block (bc_collect_block tr t []) t.
-Definition cleanup_bool_cast := cleanup_bool_cast_gen false.
-Definition cleanup_bool_cast_fixed := cleanup_bool_cast_gen true.
+(** current tree (commit 1da1fb5): the source is looked up at registration; [_coded] = the original pass *)
+Definition cleanup_bool_cast := cleanup_bool_cast_gen true.
+Definition cleanup_bool_cast_coded := cleanup_bool_cast_gen false.
 
 (** [ConvertInstance.apply] for a sequential context: detect, cleanup_unused, cleanup_bool_cast *)
 Definition cleanup (t : block) : block := cleanup_bool_cast (cleanup_unused t).
-Definition cleanup_fixed (t : block) : block := cleanup_bool_cast_fixed (cleanup_unused t).
+Definition cleanup_coded (t : block) : block := cleanup_bool_cast_coded (cleanup_unused t).
 
 (** ** SPECIFICATION: execution paths and definition-before-use
 
@@ -373,3 +376,41 @@ Fixpoint writes_of (l : list acc) : list positive :=
   | _ :: q => writes_of q
   end.
 Definition covered (l : list acc) : bool := forallb (fun r => pmem r (writes_of l)) (reads_of l).
+
+(** ** side conditions of the path-wise preservation theorem for cleanup_bool_cast *)
+
+(** the replacement a temporary undergoes in pass 2 *)
+Definition sigma (m : rmap) (x : positive) : positive :=
+  match rfind m x with Some y => y | None => x end.
+
+(** the statements pass 1 removes: (target, source) *)
+Definition is_cast (c : bool) (reads : list obj) (result : obj) : option (positive * positive) :=
+  match c, reads, result with
+  | true, [OTemp s], OTemp t => Some (t, s)
+  | _, _, _ => None
+  end.
+
+Fixpoint casts_stmt (s : stmt) : list (positive * positive) :=
+  match s with
+  | SExpr c reads result => match is_cast c reads result with Some x => [x] | None => [] end
+  | SVarAssign _ _ | SOther _ => []
+  | SIf _ body orelse => casts_block body ++ casts_block orelse
+  | SBlock b => casts_block b
+  | SCase _ brs _ default => casts_brs brs ++ casts_block default
+  end
+with casts_block (b : block) : list (positive * positive) :=
+  match b with BNil => [] | BCons s r => casts_stmt s ++ casts_block r end
+with casts_brs (brs : branches) : list (positive * positive) :=
+  match brs with BrNil => [] | BrCons _ code r => casts_block code ++ casts_brs r end.
+
+(** every removed cast's target is replaced by the same temporary as its source, i.e. no remaining read
+    refers to a removed write.  (Holds when cast results are fresh temporaries whose source cast, if any, was
+    visited earlier; false for the chained witness under the pass as originally coded.) *)
+Definition bc_consistent_gen (tr : bool) (t : block) : bool :=
+  let m := bc_collect_block tr t [] in
+  forallb (fun ts => Pos.eqb (sigma m (fst ts)) (sigma m (snd ts))) (casts_block t).
+Definition bc_consistent := bc_consistent_gen true.
+
+(** a maybe-uninitialized temporary is only ever replaced by a maybe-uninitialized one *)
+Definition mu_closed (MU : list positive) (t : block) : bool :=
+  let m := bc_collect_block true t [] in forallb (fun x => pmem (sigma m x) MU) MU.
